@@ -41,7 +41,7 @@ prop("C02", title="exactly-once ownership", equiv=["EquivDrain.into_drop_equiv",
 prop("C03", title="allocator contract", equiv=["EquivGrow.grow_equiv", "EquivDrop.drop_equiv"], trusted=[HAND, EXTR, UBDEF, "the GlobalAlloc contract as written in Machine.do_realloc/do_dealloc"])
 prop("C04", title="panic safety", equiv=["EquivDrain.filter_guard_equiv"], trusted=[HAND, EXTR, UBDEF])
 prop("C05", title="forget safety", equiv=["EquivDrain.drain_filter_equiv"], trusted=[HAND, EXTR, UBDEF])
-prop("C06", title="never-allocated vector", equiv=["EquivAsPtr.as_ptr_equiv", "EquivAsPtr.new_equiv", "EquivDelegNew.default_is_new"], trusted=[HAND, EXTR, UBDEF], profiles="dr")
+prop("C06", title="never-allocated vector", equiv=["EquivAsPtr.as_ptr_equiv", "EquivAsPtr.new_equiv", "EquivAsPtr.is_default_equiv", "EquivDelegNew.default_is_new"], trusted=[HAND, EXTR, UBDEF], profiles="dr")
 prop("C07", title="capacity honest / reservation contract / stability", equiv=["EquivCap.len_equiv", "EquivCap.capacity_equiv", "EquivCap.reserve_exact_equiv", "EquivCap.shrink_to_fit_equiv", "EquivCap.shrink_to_equiv", "EquivReserve.reserve_equiv", "EquivReserve.reserve_equiv_policy", "EquivCtor.with_capacity_equiv"], trusted=[HAND, EXTR])
 prop("C08", title="alignment", equiv=["EquivAlign.alignment_equiv", "EquivMaxAlign.max_align_equiv", "EquivCtor.with_alignment_equiv"], trusted=[HAND, EXTR])
 prop("C09", title="impossible sizes", equiv=["next_aligned_equiv", "make_layout_equiv"], quick_n=480, thorough_n=4000, child_timeout=15,
